@@ -178,6 +178,11 @@ class C06(core.Check):
                 queries.append(dict(q=['first', pr], recv='elem', sel=[0.0, 0.0, 0.0, 0.0]))
             for pr in rng.sample(PREDS, 2):
                 queries.append(dict(q=['first', pr], recv=rng.choice(['elem', 'doc']), sel=[rng.random() for _ in range(4)]))
+            # list-valued contains / icontains criteria whose first alternative matches nothing
+            for key, vals in rng.sample([['data-x__contains', ['zzz', 'b']], ['data-x__icontains', ['zzz', 'ABC', '2']], ['name__contains', ['zz', 'n']],
+                                         ['name__icontains', ['zz', 'N1']], ['class__contains', ['q', 'x', 'y']], ['id__contains', ['zz', 'a', 'e']],
+                                         ['text__contains', ['zz', 'ello']]], 3):
+                queries.append(dict(q=['find', [[key, vals]]], recv='doc', sel=[0.0, 0.0, 0.0, 0.0]))
             nq += len(queries)
             cases.append(dict(toks=toks, queries=queries))
         # directed: an earlier sibling holds a match below it, a later sibling matches itself
